@@ -38,13 +38,14 @@ CONSTANTS Pods,          \* pod names
           TGPs,          \* subset of BOOLEAN: the NodeClaim has a terminationGracePeriod
           Instants,      \* subset of BOOLEAN: provider Delete removes the instance at once
           MaxFaults, MaxRestarts, MaxLen,
+          MaxSpont,      \* budget of spontaneous disturbances (a running pod leaves, the instance vanishes, NotReady); 99 = unbounded
           Atomic,        \* TRUE: no foreign step inside a reconcile
           FinalizeMode,  \* "code": finalize trusts status.providerID only; "cache": it also consults the launch cache
           Weak           \* spec mutation: "" | "deleteOkIsGone" | "skipVolumes" | "claimIgnoresNodes" | "skipDrain" | "noTaint"
 
-VARIABLES nc, node, pod, va, inst, cache, everCreated, provGone, lostLaunch, queued, tgpElapsed, drainOld, lc, nt, faults, restarts, par, h
-vars == <<nc, node, pod, va, inst, cache, everCreated, provGone, lostLaunch, queued, tgpElapsed, drainOld, lc, nt, faults, restarts, par, h>>
-view == <<nc, node, pod, va, inst, cache, everCreated, provGone, lostLaunch, queued, tgpElapsed, drainOld, lc, nt, faults, restarts, par>>
+VARIABLES nc, node, pod, va, inst, cache, everCreated, provGone, lostLaunch, queued, tgpElapsed, drainOld, lc, nt, faults, restarts, spont, par, h
+vars == <<nc, node, pod, va, inst, cache, everCreated, provGone, lostLaunch, queued, tgpElapsed, drainOld, lc, nt, faults, restarts, spont, par, h>>
+view == <<nc, node, pod, va, inst, cache, everCreated, provGone, lostLaunch, queued, tgpElapsed, drainOld, lc, nt, faults, restarts, spont, par>>
 
 Pid == "i1"
 \* ann: the termination timestamp annotation is set; the clock is abstracted into two monotone facts
@@ -100,7 +101,7 @@ Init ==
       /\ inst = IF kind = "fresh" THEN "none" ELSE "running"
       /\ cache = (kind = "unpersisted")
       /\ everCreated = (kind # "fresh")
-      /\ provGone = FALSE /\ lostLaunch = FALSE /\ queued = {} /\ tgpElapsed = FALSE /\ drainOld = FALSE /\ lc = LcIdle /\ nt = NtIdle /\ faults = 0 /\ restarts = 0
+      /\ provGone = FALSE /\ lostLaunch = FALSE /\ queued = {} /\ tgpElapsed = FALSE /\ drainOld = FALSE /\ lc = LcIdle /\ nt = NtIdle /\ faults = 0 /\ restarts = 0 /\ spont = 0
       /\ h = <<[a |-> "Start", kind |-> kind, vaOwner |-> vo, tgp |-> tgp, instant |-> instant]>>
 
 \* ---------------------------------------------------------------- fault bookkeeping
@@ -118,7 +119,7 @@ LcBegin ==
     /\ nc.exists /\ nc.del /\ nc.fin
     /\ lc' = [LcIdle EXCEPT !.pc = "annotate", !.m = nc, !.lp = nc.pid]
     /\ Hist([a |-> "LcRec"])
-    /\ UNCHANGED <<nc, node, pod, va, inst, cache, everCreated, provGone, lostLaunch, queued, tgpElapsed, drainOld, nt, faults, restarts, par>>
+    /\ UNCHANGED <<nc, node, pod, va, inst, cache, everCreated, provGone, lostLaunch, queued, tgpElapsed, drainOld, nt, faults, restarts, spont, par>>
 
 \* patch with optimistic lock: fails when the copy in hand is not the stored version
 LcAnnotate(f) ==
@@ -130,7 +131,7 @@ LcAnnotate(f) ==
                ELSE /\ nc' = [nc EXCEPT !.ann = TRUE]
                     /\ lc' = [lc EXCEPT !.pc = "nodes", !.m = nc', !.patched = TRUE]
        ELSE NoCall(f) /\ lc' = [lc EXCEPT !.pc = "nodes"] /\ UNCHANGED nc
-    /\ UNCHANGED <<node, pod, va, inst, cache, everCreated, provGone, lostLaunch, queued, tgpElapsed, drainOld, nt, restarts, par>>
+    /\ UNCHANGED <<node, pod, va, inst, cache, everCreated, provGone, lostLaunch, queued, tgpElapsed, drainOld, nt, restarts, spont, par>>
 
 LcNodes(f) ==
     /\ lc.pc = "nodes"
@@ -141,7 +142,7 @@ LcNodes(f) ==
                      ELSE IF node.del THEN LcIdle          \* wait for the node to finish
                      ELSE [lc EXCEPT !.pc = "deleteNode"]
        ELSE NoCall(f) /\ lc' = [lc EXCEPT !.pc = "provDelete"]
-    /\ UNCHANGED <<nc, node, pod, va, inst, cache, everCreated, provGone, lostLaunch, queued, tgpElapsed, drainOld, nt, restarts, par>>
+    /\ UNCHANGED <<nc, node, pod, va, inst, cache, everCreated, provGone, lostLaunch, queued, tgpElapsed, drainOld, nt, restarts, spont, par>>
 
 LcDeleteNode(f) ==
     /\ lc.pc = "deleteNode"
@@ -149,7 +150,7 @@ LcDeleteNode(f) ==
     /\ lc' = LcIdle
     /\ node' = IF f = "err" \/ ~node.exists THEN node
                ELSE IF node.fin THEN [node EXCEPT !.del = TRUE] ELSE NoNode
-    /\ UNCHANGED <<nc, pod, va, inst, cache, everCreated, provGone, lostLaunch, queued, tgpElapsed, drainOld, nt, restarts, par>>
+    /\ UNCHANGED <<nc, pod, va, inst, cache, everCreated, provGone, lostLaunch, queued, tgpElapsed, drainOld, nt, restarts, spont, par>>
 
 LcProvDelete(f) ==
     /\ lc.pc = "provDelete"
@@ -163,7 +164,7 @@ LcProvDelete(f) ==
                     /\ lc' = [lc EXCEPT !.pc = "patchIT", !.res = "ok", !.lp = lp] /\ UNCHANGED provGone
                ELSE /\ provGone' = TRUE /\ UNCHANGED inst
                     /\ lc' = [lc EXCEPT !.pc = "patchIT", !.res = "nf", !.lp = lp]
-    /\ UNCHANGED <<nc, node, pod, va, cache, everCreated, lostLaunch, queued, tgpElapsed, drainOld, nt, restarts, par>>
+    /\ UNCHANGED <<nc, node, pod, va, cache, everCreated, lostLaunch, queued, tgpElapsed, drainOld, nt, restarts, spont, par>>
 
 LcPatchIT(f) ==
     /\ lc.pc = "patchIT"
@@ -175,21 +176,21 @@ LcPatchIT(f) ==
                ELSE /\ nc' = [nc EXCEPT !.iterm = TRUE, !.pid = lc.lp]
                     /\ lc' = [cont EXCEPT !.m = IF cont.pc = "idle" THEN NoClaim ELSE nc']
        ELSE NoCall(f) /\ lc' = cont /\ UNCHANGED nc
-    /\ UNCHANGED <<node, pod, va, inst, cache, everCreated, provGone, lostLaunch, queued, tgpElapsed, drainOld, nt, restarts, par>>
+    /\ UNCHANGED <<node, pod, va, inst, cache, everCreated, provGone, lostLaunch, queued, tgpElapsed, drainOld, nt, restarts, spont, par>>
 
 LcRemoveFin(f) ==
     /\ lc.pc = "removeFin"
     /\ Fault(f, "lc", "removeFin", IF lc.patched THEN 2 ELSE 1)
     /\ lc' = LcIdle
     /\ nc' = IF f = "err" \/ ~nc.exists \/ lc.m # nc THEN nc ELSE NoClaim
-    /\ UNCHANGED <<node, pod, va, inst, cache, everCreated, provGone, lostLaunch, queued, tgpElapsed, drainOld, nt, restarts, par>>
+    /\ UNCHANGED <<node, pod, va, inst, cache, everCreated, provGone, lostLaunch, queued, tgpElapsed, drainOld, nt, restarts, spont, par>>
 
 \* the next reconcile of a NodeClaim that is not being deleted persists the cached launch result
 LcPersistLaunch ==
     /\ Idle /\ nc.exists /\ ~nc.del /\ nc.pid = "-" /\ cache
     /\ nc' = [nc EXCEPT !.pid = Pid]
     /\ Hist([a |-> "LcRec"])
-    /\ UNCHANGED <<node, pod, va, inst, cache, everCreated, provGone, lostLaunch, queued, tgpElapsed, drainOld, lc, nt, faults, restarts, par>>
+    /\ UNCHANGED <<node, pod, va, inst, cache, everCreated, provGone, lostLaunch, queued, tgpElapsed, drainOld, lc, nt, faults, restarts, spont, par>>
 
 \* ---------------------------------------------------------------- Node finalizer (node termination controller)
 NtBegin ==
@@ -197,7 +198,7 @@ NtBegin ==
     /\ node.exists /\ node.del /\ node.fin
     /\ nt' = [NtIdle EXCEPT !.pc = "listClaims", !.n = node, !.obs = Obs]
     /\ Hist([a |-> "NodeRec"])
-    /\ UNCHANGED <<nc, node, pod, va, inst, cache, everCreated, provGone, lostLaunch, queued, tgpElapsed, drainOld, lc, faults, restarts, par>>
+    /\ UNCHANGED <<nc, node, pod, va, inst, cache, everCreated, provGone, lostLaunch, queued, tgpElapsed, drainOld, lc, faults, restarts, spont, par>>
 
 NtListClaims(f) ==
     /\ nt.pc = "listClaims"
@@ -205,7 +206,7 @@ NtListClaims(f) ==
     /\ LET c == IF nc.exists /\ nc.pid = Pid THEN nc ELSE NoClaim IN
        nt' = IF f = "err" THEN NtIdle
              ELSE [nt EXCEPT !.c0 = c, !.c = c, !.pc = IF c.exists /\ ~c.del THEN "deleteClaim" ELSE "ready"]
-    /\ UNCHANGED <<nc, node, pod, va, inst, cache, everCreated, provGone, lostLaunch, queued, tgpElapsed, drainOld, lc, restarts, par>>
+    /\ UNCHANGED <<nc, node, pod, va, inst, cache, everCreated, provGone, lostLaunch, queued, tgpElapsed, drainOld, lc, restarts, spont, par>>
 
 NtDeleteClaim(f) ==
     /\ nt.pc = "deleteClaim"
@@ -213,7 +214,7 @@ NtDeleteClaim(f) ==
     /\ nt' = IF f = "err" THEN NtIdle ELSE [nt EXCEPT !.pc = "ready"]
     /\ nc' = IF f = "err" \/ ~nc.exists \/ nc.del THEN nc
              ELSE IF nc.fin THEN [nc EXCEPT !.del = TRUE] ELSE NoClaim
-    /\ UNCHANGED <<node, pod, va, inst, cache, everCreated, provGone, lostLaunch, queued, tgpElapsed, drainOld, lc, restarts, par>>
+    /\ UNCHANGED <<node, pod, va, inst, cache, everCreated, provGone, lostLaunch, queued, tgpElapsed, drainOld, lc, restarts, spont, par>>
 
 \* not-ready shortcut: ask the provider; NotFound removes the finalizer at once
 NtReady(f) ==
@@ -224,7 +225,7 @@ NtReady(f) ==
             /\ IF f = "err" THEN nt' = NtIdle /\ UNCHANGED provGone
                ELSE IF inst \in {"gone", "none"} THEN nt' = [nt EXCEPT !.pc = "removeFin"] /\ provGone' = TRUE
                ELSE nt' = [nt EXCEPT !.pc = "taint"] /\ UNCHANGED provGone
-    /\ UNCHANGED <<nc, node, pod, va, inst, cache, everCreated, lostLaunch, queued, tgpElapsed, drainOld, lc, restarts, par>>
+    /\ UNCHANGED <<nc, node, pod, va, inst, cache, everCreated, lostLaunch, queued, tgpElapsed, drainOld, lc, restarts, spont, par>>
 
 NtTaint(f) ==
     /\ nt.pc = "taint"
@@ -235,7 +236,7 @@ NtTaint(f) ==
                THEN nt' = NtIdle /\ UNCHANGED node
                ELSE /\ node' = [node EXCEPT !.tainted = TRUE]
                     /\ nt' = [nt EXCEPT !.pc = "drain", !.n = node', !.patched = TRUE]
-    /\ UNCHANGED <<nc, pod, va, inst, cache, everCreated, provGone, lostLaunch, queued, tgpElapsed, drainOld, lc, restarts, par>>
+    /\ UNCHANGED <<nc, pod, va, inst, cache, everCreated, provGone, lostLaunch, queued, tgpElapsed, drainOld, lc, restarts, spont, par>>
 
 NtDrain(f) ==
     /\ nt.pc = "drain"
@@ -253,7 +254,7 @@ NtDrain(f) ==
           THEN nt' = [nt EXCEPT !.c = c1, !.res = "requeue", !.pc = "patch"] /\ UNCHANGED queued
           ELSE /\ nt' = [nt EXCEPT !.c = IF hasC THEN [c1 EXCEPT !.drained = "True"] ELSE c1, !.pc = "volumes"]
                /\ UNCHANGED queued
-    /\ UNCHANGED <<nc, node, pod, va, inst, cache, everCreated, provGone, lostLaunch, tgpElapsed, drainOld, lc, restarts, par>>
+    /\ UNCHANGED <<nc, node, pod, va, inst, cache, everCreated, provGone, lostLaunch, tgpElapsed, drainOld, lc, restarts, spont, par>>
 
 NtVolumes(f) ==
     /\ nt.pc = "volumes"
@@ -268,7 +269,7 @@ NtVolumes(f) ==
                 ELSE IF ~blocking THEN [nt EXCEPT !.c = IF hasC THEN [@ EXCEPT !.vdet = "True"] ELSE @, !.pc = "provDelete", !.obs = Obs]
                 ELSE IF ~elapsed THEN [nt EXCEPT !.c = IF hasC THEN [@ EXCEPT !.vdet = "Unknown"] ELSE @, !.res = "requeue", !.pc = "patch"]
                 ELSE [nt EXCEPT !.c = IF hasC THEN [@ EXCEPT !.vdet = "False"] ELSE @, !.pc = "provDelete", !.obs = Obs]
-    /\ UNCHANGED <<nc, node, pod, va, inst, cache, everCreated, provGone, lostLaunch, queued, tgpElapsed, drainOld, lc, restarts, par>>
+    /\ UNCHANGED <<nc, node, pod, va, inst, cache, everCreated, provGone, lostLaunch, queued, tgpElapsed, drainOld, lc, restarts, spont, par>>
 
 NtProvDelete(f) ==
     /\ nt.pc = "provDelete"
@@ -283,7 +284,7 @@ NtProvDelete(f) ==
                     /\ UNCHANGED provGone
                ELSE /\ provGone' = TRUE /\ UNCHANGED inst
                     /\ nt' = [nt EXCEPT !.c = [@ EXCEPT !.iterm = TRUE], !.pc = "patch"]
-    /\ UNCHANGED <<nc, node, pod, va, cache, everCreated, lostLaunch, queued, tgpElapsed, drainOld, lc, restarts, par>>
+    /\ UNCHANGED <<nc, node, pod, va, cache, everCreated, lostLaunch, queued, tgpElapsed, drainOld, lc, restarts, spont, par>>
 
 NtPatch(f) ==
     /\ nt.pc = "patch"
@@ -299,7 +300,7 @@ NtPatch(f) ==
           /\ nc' = IF okW THEN [nc EXCEPT !.drained = nt.c.drained, !.vdet = nt.c.vdet, !.iterm = nt.c.iterm] ELSE nc
           \* a newly persisted Drained=Unknown starts the MinDrainTime wait
           /\ drainOld' = IF okW /\ nc.drained # "Unknown" /\ nt.c.drained = "Unknown" THEN FALSE ELSE drainOld
-    /\ UNCHANGED <<node, pod, va, inst, cache, everCreated, provGone, lostLaunch, queued, tgpElapsed, lc, restarts, par>>
+    /\ UNCHANGED <<node, pod, va, inst, cache, everCreated, provGone, lostLaunch, queued, tgpElapsed, lc, restarts, spont, par>>
 
 \* strategic merge patch, no optimistic lock
 NtRemoveFin(f) ==
@@ -307,29 +308,31 @@ NtRemoveFin(f) ==
     /\ Fault(f, "nt", "removeFin", IF nt.patched THEN 2 ELSE 1)
     /\ nt' = NtIdle
     /\ node' = IF f = "err" \/ ~node.exists THEN node ELSE NoNode
-    /\ UNCHANGED <<nc, pod, va, inst, cache, everCreated, provGone, lostLaunch, queued, tgpElapsed, drainOld, lc, restarts, par>>
+    /\ UNCHANGED <<nc, pod, va, inst, cache, everCreated, provGone, lostLaunch, queued, tgpElapsed, drainOld, lc, restarts, spont, par>>
 
 \* ---------------------------------------------------------------- eviction queue (abstract) and environment
 EnvOK == Atomic => Idle
+Spont == (MaxSpont >= 99 \/ spont < MaxSpont) /\ spont' = IF MaxSpont >= 99 THEN spont ELSE spont + 1
 QRec(p) ==
     /\ EnvOK /\ p \in queued
     /\ queued' = queued \ {p}
     /\ pod' = IF pod[p].st = "run" THEN [pod EXCEPT ![p] = [st |-> "term"]] ELSE pod
     /\ Hist([a |-> "QRec", pod |-> p])
-    /\ UNCHANGED <<nc, node, va, inst, cache, everCreated, provGone, lostLaunch, tgpElapsed, drainOld, lc, nt, faults, restarts, par>>
+    /\ UNCHANGED <<nc, node, va, inst, cache, everCreated, provGone, lostLaunch, tgpElapsed, drainOld, lc, nt, faults, restarts, spont, par>>
 UserDeleteClaim ==
     /\ EnvOK /\ nc.exists /\ ~nc.del
     /\ nc' = IF nc.fin THEN [nc EXCEPT !.del = TRUE] ELSE NoClaim
     /\ Hist([a |-> "DeleteClaim"])
-    /\ UNCHANGED <<node, pod, va, inst, cache, everCreated, provGone, lostLaunch, queued, tgpElapsed, drainOld, lc, nt, faults, restarts, par>>
+    /\ UNCHANGED <<node, pod, va, inst, cache, everCreated, provGone, lostLaunch, queued, tgpElapsed, drainOld, lc, nt, faults, restarts, spont, par>>
 UserDeleteNode ==
     /\ EnvOK /\ node.exists /\ ~node.del
     /\ node' = IF node.fin THEN [node EXCEPT !.del = TRUE] ELSE NoNode
     /\ Hist([a |-> "DeleteNode"])
-    /\ UNCHANGED <<nc, pod, va, inst, cache, everCreated, provGone, lostLaunch, queued, tgpElapsed, drainOld, lc, nt, faults, restarts, par>>
+    /\ UNCHANGED <<nc, pod, va, inst, cache, everCreated, provGone, lostLaunch, queued, tgpElapsed, drainOld, lc, nt, faults, restarts, spont, par>>
 PodGone(p) ==
     /\ EnvOK /\ OnNode(p)
     /\ pod' = [pod EXCEPT ![p] = [st |-> "gone"]]
+    /\ (IF pod[p].st = "run" THEN Spont ELSE UNCHANGED spont)     \* a running pod leaves by itself / the kubelet finishes a terminating one
     /\ Hist([a |-> "PodGone", pod |-> p])
     /\ UNCHANGED <<nc, node, va, inst, cache, everCreated, provGone, lostLaunch, queued, tgpElapsed, drainOld, lc, nt, faults, restarts, par>>
 \* kube-scheduler honours the NoSchedule taint: only tolerating pods bind to a node being terminated
@@ -337,43 +340,43 @@ PodBinds(p) ==
     /\ EnvOK /\ p \in Tol /\ pod[p].st = "absent" /\ node.exists
     /\ pod' = [pod EXCEPT ![p] = [st |-> "run"]]
     /\ Hist([a |-> "PodBinds", pod |-> p])
-    /\ UNCHANGED <<nc, node, va, inst, cache, everCreated, provGone, lostLaunch, queued, tgpElapsed, drainOld, lc, nt, faults, restarts, par>>
+    /\ UNCHANGED <<nc, node, va, inst, cache, everCreated, provGone, lostLaunch, queued, tgpElapsed, drainOld, lc, nt, faults, restarts, spont, par>>
 PodStuck(p) ==
     /\ EnvOK /\ pod[p].st = "term"
     /\ pod' = [pod EXCEPT ![p] = [st |-> "stuck"]]
     /\ Hist([a |-> "PodStuck", pod |-> p])
-    /\ UNCHANGED <<nc, node, va, inst, cache, everCreated, provGone, lostLaunch, queued, tgpElapsed, drainOld, lc, nt, faults, restarts, par>>
+    /\ UNCHANGED <<nc, node, va, inst, cache, everCreated, provGone, lostLaunch, queued, tgpElapsed, drainOld, lc, nt, faults, restarts, spont, par>>
 VolumeDetach ==
     /\ EnvOK /\ va /\ va' = FALSE
     /\ Hist([a |-> "VolumeDetach"])
-    /\ UNCHANGED <<nc, node, pod, inst, cache, everCreated, provGone, lostLaunch, queued, tgpElapsed, drainOld, lc, nt, faults, restarts, par>>
+    /\ UNCHANGED <<nc, node, pod, inst, cache, everCreated, provGone, lostLaunch, queued, tgpElapsed, drainOld, lc, nt, faults, restarts, spont, par>>
 InstGone ==
     /\ EnvOK /\ inst = "terminating" /\ inst' = "gone"
     /\ Hist([a |-> "InstanceGone"])
-    /\ UNCHANGED <<nc, node, pod, va, cache, everCreated, provGone, lostLaunch, queued, tgpElapsed, drainOld, lc, nt, faults, restarts, par>>
+    /\ UNCHANGED <<nc, node, pod, va, cache, everCreated, provGone, lostLaunch, queued, tgpElapsed, drainOld, lc, nt, faults, restarts, spont, par>>
 InstVanish ==
-    /\ EnvOK /\ inst = "running" /\ inst' = "gone"
+    /\ EnvOK /\ inst = "running" /\ inst' = "gone" /\ Spont
     /\ node' = IF node.exists THEN [node EXCEPT !.ready = FALSE] ELSE node      \* no kubelet without an instance
     /\ Hist([a |-> "InstanceVanishes"])
     /\ UNCHANGED <<nc, pod, va, cache, everCreated, provGone, lostLaunch, queued, tgpElapsed, drainOld, lc, nt, faults, restarts, par>>
 NotReady ==
-    /\ EnvOK /\ node.exists /\ node.ready /\ node' = [node EXCEPT !.ready = FALSE]
+    /\ EnvOK /\ node.exists /\ node.ready /\ node' = [node EXCEPT !.ready = FALSE] /\ Spont
     /\ Hist([a |-> "NotReady"])
     /\ UNCHANGED <<nc, pod, va, inst, cache, everCreated, provGone, lostLaunch, queued, tgpElapsed, drainOld, lc, nt, faults, restarts, par>>
 \* a kubelet reports Ready only while its instance runs
 Ready ==
     /\ EnvOK /\ node.exists /\ ~node.ready /\ inst = "running" /\ node' = [node EXCEPT !.ready = TRUE]
     /\ Hist([a |-> "Ready"])
-    /\ UNCHANGED <<nc, pod, va, inst, cache, everCreated, provGone, lostLaunch, queued, tgpElapsed, drainOld, lc, nt, faults, restarts, par>>
+    /\ UNCHANGED <<nc, pod, va, inst, cache, everCreated, provGone, lostLaunch, queued, tgpElapsed, drainOld, lc, nt, faults, restarts, spont, par>>
 \* time passes: the termination time of the NodeClaim / MinDrainTime since Drained=Unknown was persisted
 TgpElapses ==
     /\ EnvOK /\ nc.exists /\ nc.ann /\ ~tgpElapsed /\ tgpElapsed' = TRUE
     /\ Hist([a |-> "TgpElapses"])
-    /\ UNCHANGED <<nc, node, pod, va, inst, cache, everCreated, provGone, lostLaunch, queued, drainOld, lc, nt, faults, restarts, par>>
+    /\ UNCHANGED <<nc, node, pod, va, inst, cache, everCreated, provGone, lostLaunch, queued, drainOld, lc, nt, faults, restarts, spont, par>>
 DrainTimePasses ==
     /\ EnvOK /\ nc.exists /\ nc.drained = "Unknown" /\ ~drainOld /\ drainOld' = TRUE
     /\ Hist([a |-> "DrainTimePasses"])
-    /\ UNCHANGED <<nc, node, pod, va, inst, cache, everCreated, provGone, lostLaunch, queued, tgpElapsed, lc, nt, faults, restarts, par>>
+    /\ UNCHANGED <<nc, node, pod, va, inst, cache, everCreated, provGone, lostLaunch, queued, tgpElapsed, lc, nt, faults, restarts, spont, par>>
 \* process restart: running reconciles, the eviction queue and the launch cache are lost
 Restart ==
     /\ restarts < MaxRestarts /\ restarts' = restarts + 1
@@ -381,7 +384,7 @@ Restart ==
     \* the only record of a created instance whose provider id was not persisted dies with the process
     /\ lostLaunch' = (lostLaunch \/ (cache /\ nc.exists /\ nc.pid = "-"))
     /\ Hist([a |-> "Restart"])
-    /\ UNCHANGED <<nc, node, pod, va, inst, everCreated, provGone, tgpElapsed, drainOld, faults, par>>
+    /\ UNCHANGED <<nc, node, pod, va, inst, everCreated, provGone, tgpElapsed, drainOld, faults, spont, par>>
 
 Controller ==
     \/ LcBegin \/ NtBegin \/ LcPersistLaunch
